@@ -552,22 +552,13 @@ Qed.
 (* 4. reblock_if_unfair: the semaphore is not touched                  *)
 (* ------------------------------------------------------------------ *)
 Lemma reblock_fold_frame : forall s l e e',
-  fold_left (fun acc wid =>
-     match acc with
-     | None => None
-     | Some e =>
-       match get_waiter s wid with
-       | None => None
-       | Some w =>
-         if N.ltb (sm_avail s) (wt_n w) && (match task_finished e (wt_task w) with Some false => true | _ => false end)
-         then e_block e (wt_task w) false else Some e
-       end
-     end) l (Some e) = Some e' -> eng_frame e e'.
+  fold_left (reblock_step s) l (Some e) = Some e' -> eng_frame e e'.
 Proof.
   intros s l; induction l as [|wid r IH]; intros e e' H; cbn [fold_left] in H.
   - inversion H; subst; apply eng_frame_refl.
-  - destruct (get_waiter s wid) as [w|]; [|rewrite fold_left_none in H by reflexivity; discriminate].
-    destruct (N.ltb (sm_avail s) (wt_n w) && _).
+  - unfold reblock_step at 2 in H.
+    destruct (get_waiter s wid) as [w|]; [|rewrite fold_left_none in H by reflexivity; discriminate].
+    match type of H with context [if ?c then _ else _] => destruct c end.
     + destruct (e_block e (wt_task w) false) as [e1|] eqn:Hb;
         [|rewrite fold_left_none in H by reflexivity; discriminate].
       eapply eng_frame_trans; [eapply e_block_frame; eauto|eapply IH; eauto].
@@ -2133,23 +2124,14 @@ Qed.
 (* reblock_if_unfair never panics on a well-formed semaphore *)
 Lemma reblock_fold_total : forall s l e,
   (forall wid, In wid l -> exists w, get_waiter s wid = Some w) ->
-  exists e', fold_left (fun acc wid =>
-     match acc with
-     | None => None
-     | Some e =>
-       match get_waiter s wid with
-       | None => None
-       | Some w =>
-         if N.ltb (sm_avail s) (wt_n w) && (match task_finished e (wt_task w) with Some false => true | _ => false end)
-         then e_block e (wt_task w) false else Some e
-       end
-     end) l (Some e) = Some e'.
+  exists e', fold_left (reblock_step s) l (Some e) = Some e'.
 Proof.
   intros s l; induction l as [|wid r IH]; intros e Hall; cbn [fold_left].
   - eexists; reflexivity.
-  - destruct (Hall wid (or_introl eq_refl)) as (w & Hg). rewrite Hg.
+  - destruct (Hall wid (or_introl eq_refl)) as (w & Hg). unfold reblock_step at 2. rewrite Hg.
     assert (Hr : forall x, In x r -> exists w0, get_waiter s x = Some w0) by (intros x Hx; apply Hall; right; exact Hx).
     destruct (N.ltb (sm_avail s) (wt_n w)); cbn [andb]; [|apply IH; exact Hr].
+    destruct (negb (match me e with Some m => Nat.eqb m (wt_task w) | None => false end)); cbn [andb]; [|apply IH; exact Hr].
     destruct (task_finished e (wt_task w)) as [[|]|] eqn:Hf; try (apply IH; exact Hr).
     unfold task_finished in Hf. destruct (get_task e (wt_task w)) as [tk|] eqn:Hgt; [|discriminate].
     inversion Hf as [Hfin]. unfold e_block. rewrite Hgt, Hfin.
